@@ -83,6 +83,7 @@ type recorder struct {
 	events  []map[string]any
 	t       int
 	vms     map[uintptr]int
+	nvm     int
 	trigger func(ev string, vmIdx int) // called with mu held
 }
 
@@ -95,8 +96,9 @@ func (r *recorder) hook(vm, env uintptr, ev string, a int, b uintptr) {
 		return
 	}
 	idx, ok := r.vms[vm]
-	if !ok {
-		idx = len(r.vms) + 1
+	if !ok || ev == "run-start" { // (a VM address may be reused by a later VM: a run-start always names a new VM)
+		r.nvm++
+		idx = r.nvm
 		r.vms[vm] = idx
 	}
 	if ev == "watcher-fired" || ev == "watcher-released" {
@@ -123,7 +125,7 @@ func isBlock(ev string) bool {
 
 func runCase(c c11Case) []any {
 	rec.mu.Lock()
-	rec.on, rec.events, rec.t, rec.vms, rec.trigger = true, nil, c.ID, map[uintptr]int{}, nil
+	rec.on, rec.events, rec.t, rec.vms, rec.trigger, rec.nvm = true, nil, c.ID, map[uintptr]int{}, nil, 0
 	rec.mu.Unlock()
 	rec.log(map[string]any{"ev": "reset", "name": c.Name, "term": c.Term, "point": c.Point})
 
